@@ -1247,3 +1247,192 @@ pub fn run_tcp_frame(args: &Args) -> Result<()> {
     eprintln!("{{\"driver\":\"tcp-frame\",\"events\":{},\"histories\":{}}}", id, id);
     Ok(())
 }
+
+// ------------------------------------------------------------------------------------------------
+// C18 incoming side over a REAL TCP connection: the emulator's own receive worker splits the byte stream into
+// lines.  The emulator waits for start (paused), the harness connects as the controller and writes control lines
+// in various chunkings - several lines in one write, a line split across writes, an over-long unknown line whose
+// tail looks like a command - then, once the run loop has polled long enough after the last byte, ONE poll event
+// with all lines sent is recorded (no instruction executes while paused, so the effect of the lines does not
+// depend on which poll saw which line), and finally cmd:stop.
+// ------------------------------------------------------------------------------------------------
+pub fn run_tcp_lines(args: &Args) -> Result<()> {
+    use std::sync::atomic::{AtomicBool, AtomicU64, Ordering};
+    use std::sync::Arc;
+    let outdir = args.req("out")?.to_string();
+    let seed = args.num("seed", 1);
+    let tier = args.get("tier").unwrap_or("quick").to_string();
+    std::fs::create_dir_all(&outdir)?;
+    let mut rng = Rng::new(seed ^ hash_str("C18tcpin"), 5);
+    *CONSOLE.lock().unwrap() = Some(ConsoleCapture::install(std::path::Path::new(&format!("{}/console.bin", outdir)))?);
+    *emu::setting::ENABLE_PRINT_OPCODE.write().unwrap() = false;
+    *emu::setting::ENABLE_PRINT_MESSAGES.write().unwrap() = false;
+    let elf_path = format!("{}/tcpin.elf", outdir);
+    let log = format!("{}/thr_sock_tcpin.ndjson", outdir);
+    let _ = std::fs::remove_file(&log);
+    let long = |n: usize, tail: &str| -> String { let mut s = "x".repeat(n); s.push_str(tail); s };
+    // (lines, chunk boundaries as byte offsets into the joined stream; empty = one write)
+    let mut cases: Vec<(Vec<String>, Vec<usize>)> = vec![
+        (vec!["u8:fee000:ff".into(), "u8:ffffd0:a5".into(), "ioport:2:3c".into(), "u8:ffcf20:11".into()], vec![]),
+        (vec!["u8:fee001:f0".into(), "u8:ffffd1:5a".into(), "ioport:2:0f".into()], vec![5, 19, 20, 33]),
+        (vec![long(5000, ":u8:fee002:ff"), "u8:fee003:0f".into()], vec![]),
+        (vec![long(4090, ":zz\u{e9}\u{e9}\u{e9}\u{e9}:u8:ffcf30:77"), "u8:ffcf31:78".into()], vec![4000]),
+        (vec![long(4083, ":u8:ffcf40:1"), long(8200, ":cmd:pause:x:u8:ffcf41:2"), "u8:ffcf42:3".into(), "".into(), "foo".into()], vec![100, 9000]),
+        (vec!["ioport:c:ff".into(), "ioport:0:1".into(), "ioport:b:81".into(), "u8:fee00a:0f".into(), "u8:ffffda:ff".into()], vec![]),
+    ];
+    for _ in 0..(if tier == "thorough" { 30 } else { 3 }) {
+        let n = 1 + rng.below(6);
+        let lines: Vec<String> = (0..n).map(|i| match rng.below(8) {
+            0 => long(4000 + rng.below(400), &format!(":u8:ffcf5{:x}:{:x}", i, rng.u8())),
+            _ => line_of([4u32, 5, 6, 9, 13, 14, 15, 7, 8][rng.below(9)], i, &mut rng),
+        }).collect();
+        let total: usize = lines.iter().map(|l| l.len() + 1).sum();
+        let cuts: Vec<usize> = (0..rng.below(4)).map(|_| rng.below(total.max(1))).collect();
+        cases.push((lines, cuts));
+    }
+    let prog = prog_idle();
+    let mut first_id = 0u64;
+    let mut nh = 0u64;
+    for (k, (lines, cuts)) in cases.iter().enumerate() {
+        let file = elf_of(&prog, &mut rng);
+        std::fs::write(&elf_path, &file)?;
+        let mut done = false;
+        for attempt in 0..20 {
+            let port = 23000 + ((seed as usize * 173 + k * 29 + attempt * 991) % 18000);
+            let addr = format!("127.0.0.1:{}", port);
+            let sent = Arc::new(AtomicBool::new(false));
+            let finish = Arc::new(AtomicBool::new(false));
+            let (a2, sent2, finish2) = (addr.clone(), sent.clone(), finish.clone());
+            let mut stream: Vec<u8> = Vec::new();
+            for l in lines {
+                stream.extend_from_slice(l.as_bytes());
+                stream.push(b'\n');
+            }
+            let mut cs = cuts.clone();
+            cs.sort();
+            cs.dedup();
+            let client = std::thread::spawn(move || -> bool {
+                use std::io::Write as _;
+                for _ in 0..400 {
+                    if let Ok(mut s) = std::net::TcpStream::connect(&a2) {
+                        let _ = s.set_nodelay(true);
+                        let mut at = 0usize;
+                        for c in cs.iter().chain(std::iter::once(&stream.len())) {
+                            let c = (*c).min(stream.len());
+                            if c > at {
+                                let _ = s.write_all(&stream[at..c]);
+                                let _ = s.flush();
+                                at = c;
+                                std::thread::sleep(std::time::Duration::from_millis(3));
+                            }
+                        }
+                        sent2.store(true, Ordering::SeqCst);
+                        for _ in 0..4000 {
+                            if finish2.load(Ordering::SeqCst) {
+                                break;
+                            }
+                            std::thread::sleep(std::time::Duration::from_millis(2));
+                        }
+                        let _ = s.write_all(b"cmd:stop\n");
+                        let _ = s.flush();
+                        // keep the connection open until the emulator closes it
+                        let mut buf = Vec::new();
+                        let _ = std::io::Read::read_to_end(&mut s, &mut buf);
+                        return true;
+                    }
+                    std::thread::sleep(std::time::Duration::from_millis(5));
+                }
+                false
+            });
+            *emu::setting::ENABLE_WAIT_START.write().unwrap() = true;
+            let mut cpu = Cpu::new();
+            emu::elf::load(elf_path.clone(), &mut cpu, String::new());
+            if cpu.connect_socket(&addr).is_err() {
+                finish.store(true, Ordering::SeqCst);
+                let _ = client.join();
+                continue;
+            }
+            verif_hooks::sink_install();
+            let w = Rc::new(RefCell::new(BufWriter::new(std::fs::OpenOptions::new().create(true).append(true).open(&log)?)));
+            let shadow: Rc<RefCell<Option<Shadow>>> = Rc::new(RefCell::new(None));
+            let idc = Rc::new(RefCell::new(first_id));
+            let polls_after = Arc::new(AtomicU64::new(0));
+            let logged = Rc::new(RefCell::new(false));
+            let since: Rc<RefCell<Option<std::time::Instant>>> = Rc::new(RefCell::new(None));
+            let exit_addr = cpu.exit_addr;
+            let (w1, sh1, id1) = (w.clone(), shadow.clone(), idc.clone());
+            verif_hooks::set_on_poll(Some(Box::new(move |c: &mut Cpu| {
+                if sh1.borrow().is_none() {
+                    let sh = Shadow::of(c);
+                    let pokes = sh.nonzero_pokes();
+                    let regs = regs_of(c);
+                    let mut id = id1.borrow_mut();
+                    let _ = writeln!(w1.borrow_mut(), "{{\"k\":\"load\",\"id\":{},\"bg\":\"zero\",\"pre\":{},\"pk\":{},\"pend\":[],\"exit\":[{},{}]}}",
+                                     *id, j_u32s(&regs.vec19()), j_runs(&pokes), exit_addr >> 16, exit_addr & 0xffff);
+                    *id += 1;
+                    *sh1.borrow_mut() = Some(sh);
+                    let _ = verif_hooks::sink_take(); // the `ready` message
+                }
+            })));
+            let (w2, sh2, id2, lg2, sent3, fin3, pa2, since2) = (w.clone(), shadow.clone(), idc.clone(), logged.clone(), sent.clone(), finish.clone(), polls_after.clone(), since.clone());
+            let lines2 = lines.clone();
+            verif_hooks::set_on_polled(Some(Box::new(move |c: &mut Cpu| {
+                if *lg2.borrow() || !sent3.load(Ordering::SeqCst) {
+                    return;
+                }
+                if since2.borrow().is_none() {
+                    *since2.borrow_mut() = Some(std::time::Instant::now());
+                }
+                let n = pa2.fetch_add(1, Ordering::SeqCst);
+                if n < 200 || since2.borrow().map(|t| t.elapsed().as_millis() < 60).unwrap_or(true) {
+                    return;
+                }
+                // everything sent has been received and processed by now: one poll event for the whole sequence
+                let msgs: Vec<Vec<u8>> = verif_hooks::sink_take().into_iter().map(|s| s.into_bytes()).collect();
+                let wr = sh2.borrow_mut().as_mut().map(|s| s.diff(c)).unwrap_or_default();
+                let (dd, dr) = readbacks(c);
+                let mut id = id2.borrow_mut();
+                let _ = writeln!(w2.borrow_mut(), "{{\"k\":\"poll\",\"id\":{},\"lines\":{},\"msgs\":{},\"wr\":{},\"dd\":{},\"dr\":{},\"sum\":{}}}",
+                                 *id, j_lines(&lines2), j_msgs(&msgs), j_pairs(&wr), j_bytes(&dd), j_bytes(&dr), sum_pair(c.vh_state_sum()));
+                *id += 1;
+                *lg2.borrow_mut() = true;
+                fin3.store(true, Ordering::SeqCst);
+            })));
+            let r = std::panic::catch_unwind(std::panic::AssertUnwindSafe(|| cpu.run()));
+            verif_hooks::set_on_poll(None);
+            verif_hooks::set_on_polled(None);
+            finish.store(true, Ordering::SeqCst);
+            let res = match &r {
+                Ok(Ok(())) => "ok",
+                Ok(Err(_)) => "err",
+                Err(_) => "panic",
+            };
+            let msgs: Vec<Vec<u8>> = verif_hooks::sink_take().into_iter().map(|s| s.into_bytes()).collect();
+            let wr = shadow.borrow_mut().as_mut().map(|s| s.diff(&cpu)).unwrap_or_default();
+            let regs = regs_of(&cpu);
+            {
+                let mut id = idc.borrow_mut();
+                let stop = vec!["cmd:stop".to_string()];
+                writeln!(w.borrow_mut(), "{{\"k\":\"ret\",\"id\":{},\"res\":\"{}\",\"lines\":{},\"msgs\":{},\"post\":{},\"wr\":{},\"sum\":{},\"note\":\"\"}}",
+                         *id, res, j_lines(if *logged.borrow() { &stop } else { lines }), j_msgs(&msgs), j_u32s(&regs.vec19()), j_pairs(&wr), sum_pair(cpu.vh_state_sum()))?;
+                *id += 1;
+                first_id = *id;
+            }
+            w.borrow_mut().flush()?;
+            cpu.vh_detach_socket();
+            drop(cpu);
+            let _ = client.join();
+            let _ = console_take();
+            nh += 1;
+            done = true;
+            break;
+        }
+        if !done {
+            return Err(anyhow!("no free TCP port found"));
+        }
+    }
+    *emu::setting::ENABLE_WAIT_START.write().unwrap() = false;
+    let _ = std::fs::remove_file(&elf_path);
+    eprintln!("{{\"driver\":\"tcp-lines\",\"events\":{},\"histories\":{}}}", first_id, nh);
+    Ok(())
+}
